@@ -80,7 +80,7 @@ func runDecCase(k DecCase) (verdict string) {
 		rb, _ = relRat(k.B.Coef, int64(k.B.Exp), base)
 	}
 	ra, _ := relRat(k.A.Coef, int64(k.A.Exp), base)
-	if ra == nil || (b != nil && rb == nil) {
+	if k.Op != "Mul" && (ra == nil || (b != nil && rb == nil)) {
 		return "harness: operands too far apart for the oracle"
 	}
 	show := func(d *ion.Decimal) string {
@@ -208,6 +208,11 @@ func decCheck(c *Ctx, k DecCase, nontrivial bool) {
 	if v == "" {
 		return
 	}
+	if strings.HasPrefix(v, "harness: ") {
+		// the oracle cannot judge this case: never a violation
+		c.Obs("oracle_cannot_judge", 1)
+		return
+	}
 	c.Violate("decimal-"+k.Op, k.Op+":"+Class(v), fmt.Sprintf("%s a=%v b=%v arg=%d %s :: %s", k.Op, k.A, k.B, k.Arg, k.Note, v), k, nil)
 }
 
@@ -311,6 +316,74 @@ func runC14(c *Ctx) {
 	}
 	c.Exhaustive("String/ParseDecimal: digit counts 1..40 x scales -45..45 x sign, zero and negative zero at every scale, exponents at the int32 edges")
 
+	// ---- both operands at the edges of the exponent range ----
+	var edgeCo []*big.Int
+	for _, s := range []string{"0", "1", "5", "9", "10", "12", "99", "100", "123", "999", "1000", "12345678901234567890", "100000000000000000000", "99999999999999999999999999999999999999"} {
+		v, _ := new(big.Int).SetString(s, 10)
+		edgeCo = append(edgeCo, v, new(big.Int).Neg(v))
+	}
+	var edgeExp []int64
+	for _, k := range []int64{0, 1, 2, 3, 5, 19, 37, 40} {
+		edgeExp = append(edgeExp, math.MaxInt32-k, math.MinInt32+k)
+	}
+	type edgePair struct{ ea, eb int64 }
+	var edgePairs []edgePair
+	for _, ea := range edgeExp {
+		for _, eb := range edgeExp {
+			if d := ea - eb; d >= -40 && d <= 40 {
+				edgePairs = append(edgePairs, edgePair{ea, eb})
+			}
+		}
+	}
+	c.Parallel(len(edgePairs), func(w, i int) {
+		p := edgePairs[i]
+		for _, ca := range edgeCo {
+			for _, cb := range edgeCo {
+				a, b := model.Dec{Coef: ca, Exp: int32(p.ea)}, model.Dec{Coef: cb, Exp: int32(p.eb)}
+				for _, op := range []string{"Cmp", "Add", "Sub"} {
+					decCheckGuarded(c, DecCase{Op: op, A: a, B: b})
+				}
+			}
+		}
+	})
+	inRange := func(e int64) bool { return e >= math.MinInt32 && e <= math.MaxInt32 }
+	c.Parallel(len(edgeExp), func(w, i int) {
+		e := edgeExp[i]
+		for _, co := range edgeCo {
+			a := model.Dec{Coef: co, Exp: int32(e)}
+			for _, op := range []string{"Neg", "Abs", "Sign", "String"} {
+				decCheck(c, DecCase{Op: op, A: a}, true)
+			}
+			for sh := -45; sh <= 45; sh++ {
+				if inRange(e + int64(sh)) {
+					decCheck(c, DecCase{Op: "ShiftL", A: a, Arg: sh}, true)
+				}
+				if inRange(e - int64(sh)) {
+					decCheck(c, DecCase{Op: "ShiftR", A: a, Arg: sh}, true)
+				}
+			}
+			for _, eb := range []int64{0, 1, -1, 2, -2, 40, -40, 41, -41} {
+				if inRange(e + eb) {
+					decCheck(c, DecCase{Op: "Mul", A: a, B: model.Dec{Coef: big.NewInt(-3), Exp: int32(eb)}}, true)
+					decCheck(c, DecCase{Op: "Mul", A: model.Dec{Coef: big.NewInt(7), Exp: int32(eb)}, B: a}, true)
+				}
+			}
+			digits := len(new(big.Int).Abs(co).String())
+			for _, p := range []int{1, 2, 3, 19, 20, 21, 38, 50} {
+				drop := digits - p
+				if drop < 0 {
+					drop = 0
+				}
+				if inRange(e + int64(drop)) {
+					decCheck(c, DecCase{Op: "Truncate", A: a, Arg: p}, true)
+				}
+			}
+		}
+		decCheck(c, DecCase{Op: "String", A: model.Dec{Coef: new(big.Int), Exp: int32(e), NegZero: true}}, true)
+	})
+	c.Exhaustive(fmt.Sprintf("exponent edges: %d exponents within 40 of MaxInt32 / MinInt32 x %d coefficients x {Neg, Abs, Sign, String, ShiftL/ShiftR by -45..45, Mul by 10^{0,±1,±2,±40,±41}, Truncate to 1..50 digits} wherever the exact result has an int32 exponent", len(edgeExp), len(edgeCo)))
+	c.Exhaustive(fmt.Sprintf("exponent edges: %d pairs of exponents within 40 of MaxInt32 / MinInt32 x %d x %d coefficients of 1..38 digits x {Cmp, Add, Sub}", len(edgePairs), len(edgeCo), len(edgeCo)))
+
 	// ---- random operands ----
 	n := c.N(60000, 3000000)
 	c.Parallel(n, func(w, i int) {
@@ -382,7 +455,7 @@ func runC14(c *Ctx) {
 
 func init() {
 	Register(&Monitor{ID: "C14", Run: func(c *Ctx) {
-		c.Rule = "Decimal operations executed on the real type and compared with math/big.Rat arithmetic; String() judged by the independent Ion text lexer and by ParseDecimal(String()). Exhaustive small grid (all ordered pairs), exponent-gap sweep 0..80, Truncate sweep, formatting sweep over digit count x scale x sign, random 300-digit operands across the int32 exponent range. Non-trivial: operands differ in exponent, or a shift/precision argument is effective, or a formatting case; distinct by (op, operands, argument)."
+		c.Rule = "Decimal operations executed on the real type and compared with math/big.Rat arithmetic; String() judged by the independent Ion text lexer and by ParseDecimal(String()). Exhaustive small grid (all ordered pairs), exponent-gap sweep 0..80, Truncate sweep, formatting sweep over digit count x scale x sign, random 300-digit operands across the int32 exponent range, and a grid with both operands within 40 of MaxInt32 / MinInt32 (every operation whose exact result still has an int32 exponent; an operation on such operands that has not returned after two minutes is reported as not returning). Non-trivial: operands differ in exponent, or a shift/precision argument is effective, or a formatting case; distinct by (op, operands, argument)."
 		c.Assume("domain: results representable (exponent sums within int32, |exponent difference| <= 2000 so exact results stay materialisable)")
 		runC14(c)
 	}, Replay: func(c *Ctx, v *Violation) string {
